@@ -351,7 +351,15 @@ def vf : P String := do
         let r := witnessModelUnion m τ prev 600
         v := { v with tag := v.tag ++ " w_loop_model" }
         v := v.diffIf (!r.2) s!"{solver} loop_model_agenda_not_empty t={t}"
-        v := v.diffIf (r.2 && !(cur.all (fun α => memVec false m.S r.1 α))) s!"{solver} loop_model_missing_vector t={t} model={r.1.length} impl={cur.length}"
+        -- a returned vector the exact loop does not collect is accepted when it only differs by an exact tie (as for LinearSupport: witness
+        -- points are not dyadic, rounding decides which of two backups tying there `crossSumBestAtBelief` returns): both surfaces must
+        -- coincide at corners + partition vertices and the vector must touch the surface at one of them
+        let missing := cur.filter (fun α => !(memVec false m.S r.1 α))
+        let pts := (List.range m.S).map (cornerB m.S) ++ partitionVertices m.S cur
+        let tiesOnly := pts.all (fun x => closeQ tol9 (env m.S r.1 x) (env m.S cur x)) &&
+                        missing.all (fun α => pts.any (fun x => closeQ tol9 (dot m.S x α) (env m.S cur x)))
+        if r.2 && !missing.isEmpty && tiesOnly then v := { v with tag := v.tag ++ " w_loop_model_ties" }
+        v := v.diffIf (r.2 && !missing.isEmpty && !tiesOnly) s!"{solver} loop_model_missing_vector t={t} model={r.1.length} impl={cur.length}"
         v := v.diffIf (r.2 && !(bs.all (fun b => closeQ tol9 (env m.S r.1 b) (env m.S cur b)))) s!"{solver} loop_model_envelope t={t}"
       prev := cur
       t := t + 1
